@@ -119,6 +119,27 @@ class Cls:
         return f"<Cls {self.qual}>"
 
 
+_MUT_CACHE: t.Dict[t.Tuple[int, str], bool] = {}
+
+
+def mutated_global(mod: t.Any, name: str) -> bool:
+    """The module stores into / calls a mutating method on the module level container `name` somewhere."""
+    key = (id(mod.tree), name)
+    if key not in _MUT_CACHE:
+        hit = False
+        for n in ast.walk(mod.tree):
+            if isinstance(n, (ast.Subscript, ast.Attribute)) and isinstance(n.ctx, (ast.Store, ast.Del)) and isinstance(n.value, ast.Name) and n.value.id == name:
+                hit = True
+            elif isinstance(n, ast.Call) and isinstance(n.func, ast.Attribute) and isinstance(n.func.value, ast.Name) and n.func.value.id == name and n.func.attr in ("append", "extend", "insert", "pop", "popitem", "clear", "update", "setdefault", "add", "discard", "remove", "sort", "reverse", "__setitem__", "__delitem__"):
+                hit = True
+            elif isinstance(n, ast.AugAssign) and isinstance(n.target, ast.Name) and n.target.id == name:
+                hit = True
+            elif isinstance(n, ast.Global) and name in n.names:
+                hit = True
+        _MUT_CACHE[key] = hit
+    return _MUT_CACHE[key]
+
+
 class Func:
     def __init__(self, qual: str, node: t.Union[ast.FunctionDef, ast.AsyncFunctionDef], mod: Mod, cls: t.Optional[Cls]) -> None:
         self.qual = qual
@@ -456,6 +477,9 @@ class Repo:
                 return env[expr.id]
             r = self.resolve_name(expr.id, mod)
             if isinstance(r, tuple) and r[0] == "const":
+                if len(r) == 3 and isinstance(r[2], (ast.Dict, ast.List, ast.Set, ast.DictComp, ast.ListComp, ast.SetComp, ast.Call)) and mutated_global(r[1], expr.id):
+                    # a module level container that the module writes to is state, not a constant table
+                    raise Unfoldable(f"{expr.id} is written to")
                 return self.fold(r[2], r[1], None, _depth + 1)
             if isinstance(r, (Cls, Func)):
                 return r
@@ -632,6 +656,14 @@ class Repo:
                     kws = {k.arg: f(k.value) for k in expr.keywords if k.arg}
                     try:
                         return base.to_bytes(*args, **kws)
+                    except Exception as e:
+                        raise Unfoldable(str(e))
+            if isinstance(fn, ast.Attribute) and fn.attr == "from_bytes" and isinstance(fn.value, ast.Name) and fn.value.id == "int" and expr.args:
+                args = [f(a) for a in expr.args]
+                kws = {k.arg: f(k.value) for k in expr.keywords if k.arg}
+                if isinstance(args[0], (bytes, bytearray)):
+                    try:
+                        return int.from_bytes(*args, **kws)
                     except Exception as e:
                         raise Unfoldable(str(e))
             dotted = self.dotted(fn, mod)
